@@ -6,6 +6,7 @@ Require Import SDS.Model.Mach SDS.Model.Bits SDS.Model.Raw SDS.Model.IntVec SDS.
 Require Import SDS.Spec.Stream SDS.Check.Common.
 Require Export SDS.Model.Ser SDS.Check.SerCommon.
 Require Export SDS.Check.SerWM.   (* WMCore / WaveletMatrix: their own universe wty and the CRoundW / CConcatW / CBadW cases *)
+Require SDS.Check.SerSparse.
 Import ListNotations.
 Open Scope N_scope.
 
@@ -15,6 +16,10 @@ Inductive case :=
    eq_loaded: loaded == original; eq_answers: a few queries agree (and, where tried, serialize_to / load_from through a file gave the same bytes and an equal value); sbp: size_by_params where the type has it *)
 | CRound (path : N) (dbg : bool) (t : ty) (r : recipe) (elems tail : list N)
          (size_el size_by : N) (extra : list N) (consumed : N) (eq_loaded eq_answers : bool) (sbp : option N)
+(* one SparseVector (outside the closed type universe [ty]: its loader depends on the select path). Recipe: low width w
+   the crate chose, universe len, multi = built with SparseBuilder::multiset, the values; the rest as in CRound *)
+| CRoundS (w : N) (path : N) (dbg : bool) (len : N) (multi : bool) (vals : list N) (elems tail : list N)
+          (size_el size_by : N) (extra : list N) (consumed : N) (eq_loaded eq_answers : bool)
 (* several values in one stream; consumed: per value *)
 | CConcat (path : N) (dbg : bool) (items : list (ty * recipe)) (elems : list N) (consumed : list N) (all_eq : bool)
 (* arbitrary (malformed / extreme) stream loaded as type t *)
@@ -85,6 +90,14 @@ Definition check (c : case) : N :=
         && eq_loaded && eq_answers
         && match sbp with Some v => v =? size_el | None => true end in
       code m_ok s_ok
+  | CRoundS w path dbg len multi vals elems tail size_el size_by extra consumed eq_loaded eq_answers =>
+      let bytes := stream elems tail in
+      let m_ok := SerSparse.round_model (sp_of path) (mode_of dbg) w len multi vals bytes extra size_el consumed in
+      let s_ok :=
+        match tail with [] => true | _ => false end
+        && (size_by =? 8 * size_el) && (lenN elems =? size_el) && (consumed =? size_by)
+        && eq_loaded && eq_answers in
+      code m_ok s_ok
   | CConcat path dbg items elems consumed all_eq =>
       let sp := sp_of path in let m := mode_of dbg in
       let bytes := stream elems [] in
@@ -136,6 +149,8 @@ Definition explain (c : case) :=
       | Some x => (c_enc (codec_of m t) x, c_size (codec_of m t) x, io_code (c_dec (codec_of m t) (stream elems tail ++ extra)))
       | None => ([], 0, 99)
       end
+  | CRoundS w path dbg len multi vals elems tail size_el size_by extra consumed eq_loaded eq_answers =>
+      SerSparse.explain_round (sp_of path) (mode_of dbg) w len multi vals (stream elems tail ++ extra)
   | CConcat path dbg items elems consumed all_eq =>
       (match concat_enc (sp_of path) (mode_of dbg) items with Some e => e | None => [] end, 0, 0)
   | CBad path dbg t elems tail outcome consumed =>
